@@ -320,7 +320,7 @@ def _work(item):
 
 
 def check(ctx):
-    depth = 6 if ctx.thorough else 5
+    depth = 7 if ctx.thorough else 6
     rep = Report()
     tot = dict(states=0, transitions=0, runs=0)
     samples = []
